@@ -1,0 +1,11 @@
+//go:build verif
+
+package cfeminter
+
+// Contracts for the verification framework in /verif (comment-only file; compiled
+// only with -tags verif, where it contributes nothing but these comments).
+
+//@ // ---- declared effects (checked per call instruction by the effect checker; anything not listed is effect-free) ----
+//@ effects AppModule.BeginBlock bank.mint bank.send
+//@ effects AppModuleBasic.DefaultGenesis nondet.time
+//@ effects BeginBlocker bank.mint bank.send
